@@ -282,7 +282,10 @@ class Load(pipeline.Stream):
     check_fn = "(load_check W15)"
     shard = 500
 
+    _up = False
+
     def setup(self):
+        self._up = True
         import jsonrpclib.jsonclass as JC
         self.JC = JC
         self.world = W.standard_world()
@@ -290,7 +293,9 @@ class Load(pipeline.Stream):
         self.extra_defs = "Definition W15 : pyenv := %s.\n" % self.world.g_env()
 
     def teardown(self):
-        self.world.teardown()
+        if self._up:
+            self._up = False
+            self.world.teardown()
 
     def gen(self, tier, rng):
         cases = []
@@ -304,6 +309,8 @@ class Load(pipeline.Stream):
         return cases
 
     def run_impl(self, case):
+        if not self._up:          # the decision stage re-runs cases after teardown()
+            self.setup()
         arg = W.dv_copy(case["value"])
         table = self.world.local_table() if case["classes"] else None
         out = outcome(lambda: self.JC.load(arg, table))
